@@ -2,9 +2,13 @@
    (a) header text + use-site text: the real header parser + tokenizer against
        Model.Macro.parse_header + Model.Layout.parse (token streams incl. synthetic positions);
    (b) Header.number_macros against the model's table;
-   (c) CustomOrder.__lt__ against Model.Layout.custom_lt on a grid. *)
+   (c) CustomOrder.__lt__ against Model.Layout.custom_lt on a grid;
+   (d) parameterised macros: (type, text) of the tokens the real tokenizer produces for `KEY(args)` against
+       Model.MacroSubst.param_expand on the real tokenisation of the #define line;
+   (e) Hardcode.calc: the text hardcode_parse_calc hands to the evaluator (or its 'Invalid character') against
+       Model.MacroSubst.calc_text. *)
 From Coq Require Import ZArith String List Bool Ascii.
-From JMCV Require Import Model.Layout Model.Macro Run.Common Run.C15.
+From JMCV Require Import Model.Layout Model.Macro Model.MacroSubst Run.Common Run.C15.
 Import ListNotations.
 Open Scope Z_scope.
 
@@ -49,3 +53,29 @@ Definition hunsupported (l : list hcase) : list nat := bad_indices (fun c => neg
 Record ocase := mkOCase { oa : corder; ob : corder; o_real : bool }.
 Definition ocase_ok (c : ocase) : bool := Bool.eqb (custom_lt (oa c) (ob c)) (o_real c).
 Definition omismatches (l : list ocase) : list nat := bad_indices ocase_ok l.
+
+(* ---- (d) parameterised macros, (type, text) level *)
+Record pcase := mkPCase {
+  pc_params : list string; pc_args : list (ttype * string); pc_body : list (ttype * string);
+  pc_real : list (ttype * string)
+}.
+Definition ptok_of (t : ttype * string) : ptok := (fst t, s2l (snd t)).
+Definition ptok_eqb (a b : ptok) : bool := ttype_eqb (fst a) (fst b) && str_eqb (snd a) (snd b).
+Definition pcase_ok (c : pcase) : bool :=
+  all2 ptok_eqb (param_expand (map s2l (pc_params c)) (map ptok_of (pc_args c)) (map ptok_of (pc_body c)))
+       (map ptok_of (pc_real c)).
+Definition pmismatches (l : list pcase) : list nat := bad_indices pcase_ok l.
+
+(* ---- (e) Hardcode.calc text substitution *)
+Record ccase := mkCCase {
+  cc_num : list (string * string);      (* Header.number_macros, insertion order *)
+  cc_expr : string;                     (* the text from `(` to the matching `)` *)
+  cc_real : option string               (* what eval_expr received; None = JMC's "Invalid character" diagnostic *)
+}.
+Definition ccase_ok (c : ccase) : bool :=
+  match calc_text (map (fun kv => (s2l (fst kv), s2l (snd kv))) (cc_num c)) (s2l (cc_expr c)), cc_real c with
+  | Some t, Some r => str_eqb t (s2l r)
+  | None, None => true
+  | _, _ => false
+  end.
+Definition cmismatches (l : list ccase) : list nat := bad_indices ccase_ok l.
